@@ -98,18 +98,19 @@ theorem lgLeakRun : Steps Cfg.asIs (init 2) lgLeakSt := by
 
 /-- `SetReadOnly` racing with `Close`: it took the token, `Close` closed `closeC`, `compactionError`
 left its `noerr` loop, `SetReadOnly` returned `ErrClosed`; `Close` (thread 1) is about to take the token -/
-def srLeakSt : St :=
-  { ws := [.ret false, .clAcq], tok := true, ehTok := true, cwl := true, closed := true, eh := .exited }
+def srLeakSt (c : Bool) : St :=
+  { ws := [.ret false, .clAcq], tok := true, ehTok := true, cwl := c, closed := true, eh := .exited }
 
 theorem srLeakRun (cfg : Cfg) (hm : cfg.m = .asCoded) (hf : cfg.setReadOnlyReleasesOnClose = false) :
-    Steps cfg (init 2) srLeakSt := by
+    Steps cfg (init 2) (srLeakSt cfg.srSetsWriteLocking) := by
   have h := Steps.refl (cfg := cfg) (init 2)
   have h := h.step (Step.startSR _ 0 rfl rfl)
   have h := h.step (Step.selTok _ 0 .srSel .srSet rfl rfl rfl)
   have h := h.step (Step.startClose _ 1 rfl)
   have h := h.step (Step.ehClose _ (by rw [hm]; rfl) rfl)
   have e := Step.srClosed (cfg := cfg)
-    { ws := [.srSet, .clCheckTr], tok := true, ehTok := true, cwl := true, closed := true, eh := .exited } 0 rfl rfl
+    { ws := [.srSet, .clCheckTr], tok := true, ehTok := true, cwl := cfg.srSetsWriteLocking, closed := true,
+      eh := .exited } 0 rfl rfl
   simp only [hf] at e
   have h := h.step e
   have h := h.step (Step.clCheckTr _ 1 rfl)
